@@ -6,6 +6,7 @@ from common import VERIF, CorrResult, Failure, run_check
 import sandboxexec_common as sx
 import sandboxexec_sizes as sz
 import sandboxexec_dims as dm
+import sandboxexec_special as sp
 from translate_sandbox import translate
 
 RULE_CORR = ("histories of 1-6 executions on one sandbox: every builtin exception class, user subclasses of "
@@ -36,7 +37,14 @@ RULE_CORR = ("histories of 1-6 executions on one sandbox: every builtin exceptio
              "executions on one sandbox (student code reaching a mocked builtin / a function in its namespace / the "
              "input callable that runs call, evaluate or run on the same sandbox; depth 2 and 3; inner and outer "
              "ending normally, by Exception, SystemExit, BaseException propagating or caught, compile failure; one or "
-             "two inner executions; threaded or not); real = pedal.sandbox.commands on MAIN_REPORT, model = "
+             "two inner executions; threaded or not); PLUS (sandboxexec_special.py) the exception classes the sandbox's own code "
+             "names (read from the tree under test: every class in an except / isinstance / issubclass / raise of "
+             "pedal/sandbox/*.py, of the traceback renderer and of the library modules the tracer styles are built on, "
+             "and all their base classes - Exception and BaseException themselves, BdbQuit, ...) raised EXACTLY (as "
+             "instance, as bare class, inside a function, re-raised) and as a student subclass, crossed with every "
+             "tracer style and every place (module level, call, evaluate, imported student file, also threaded); and "
+             "the THREAD THE GRADER RUNS ON (main thread, plain threading.Thread, pool worker, _thread dummy thread, "
+             "Timer) crossed with every ending, entry point, threaded mode and with nested executions; real = pedal.sandbox.commands on MAIN_REPORT, model = "
              "Pedal.SandboxExec.runObserved / runObservedN via the driver (threaded executions are compared with the "
              "model's unthreaded answer); non-trivial = history containing a failing execution")
 
@@ -66,9 +74,19 @@ def histories(prop, rng, tier):
     hs += sz.sized_histories(rng, tier)
     # odd exception objects, threaded executions that end by themselves, nested executions on one sandbox
     hs += dm.odd_exception_histories(rng, tier)
-    hs += dm.threaded_histories(rng, tier, sweep)
-    hs += dm.nested_histories(rng, tier)
-    snippets = sx.failing_snippets(rng) + dm.odd_exception_snippets()
+    # the exception classes the sandbox's own code names (read from the tree), exactly, x every tracer style x place
+    special = sp.special_histories(rng, tier)
+    hs += special
+    # (threaded: the classes of the tracer family; in thorough also a tenth of the others)
+    hs += dm.threaded_histories(rng, tier, sweep + [h for h in special if h[-1].get("special_level2")
+                                                    or (tier != "quick" and rng.random() < 0.1)])
+    nested = dm.nested_histories(rng, tier)
+    hs += nested
+    # the thread the grader itself runs on
+    hs += sp.grader_thread_histories(rng, tier, sweep + special, nested)
+    if sp.gated_enabled():
+        hs += sp.gated_histories(rng, tier)
+    snippets = sx.failing_snippets(rng) + dm.odd_exception_snippets() + sp.special_snippets()
     sized = [s for s in sz.sized_snippets(rng) + sz.rendering_snippets() if not s.get("slow")]
     n = 60 if tier == "quick" else 4000
     for _ in range(n):
@@ -79,12 +97,18 @@ def histories(prop, rng, tier):
 def random_history(rng, snippets, sized, inject_rate=0.06):
     r = rng.random()
     if r < 0.15:
-        return dm.random_nested_history(rng)
+        h = dm.random_nested_history(rng)
+        return sp.on_thread(h, rng.choice(sp.GRADER_THREADS)) if rng.random() < 0.15 else h
     h = sx.gen_history(rng, snippets, inject_rate=inject_rate, sized=sized)
     if r < 0.40 and not any(op.get("size") for op in h):
         h = dm.threaded(h, rng.choice(dm.THREAD_MODES))
+    if rng.random() < 0.15:
+        h = sp.on_thread(h, rng.choice(sp.GRADER_THREADS))
     return h
 
+
+MODE_FIELD_TAG = {"on": "grader-thread", "threaded": "threaded"}      # op field -> tag in a signature
+MODE_TAGS = set(MODE_FIELD_TAG.values())
 
 ESSENTIAL_SHAPES = {
     "builtin:KeyboardInterrupt", "builtin:GeneratorExit", "user:BaseException", "str-raises", "repr-raises",
@@ -175,10 +199,10 @@ def make(prop, theorems, *, model_notes=None, refuted_full=None, driver_exe=None
             if any(op["term"][0] != "N" for op in sx.walk_ops(ops)):
                 nt.add(sx.request_line(ops))
             failed_at = {}
-            found = sx.failures_in(prop, ops, obs)
-            if any("threaded" in sig for _, sig, _ in found):
-                found = untag_threaded(found, ops)
-            for idx, sig, what in found:
+            found = [(i, sig, what, ()) for i, sig, what in sx.failures_in(prop, ops, obs)]
+            if any(MODE_TAGS & set(sig) for _, sig, _, _ in found):
+                found = untag(found, ops)
+            for idx, sig, what, stripped in found:
                 key = json.dumps(sig, sort_keys=True)
                 failed_at[idx] = key
                 if key in seen:
@@ -192,31 +216,52 @@ def make(prop, theorems, *, model_notes=None, refuted_full=None, driver_exe=None
                     info["signatures_not_reported_beyond_6_per_kind"] = \
                         info.get("signatures_not_reported_beyond_6_per_kind", 0) + 1
                     continue
-                small, small_obs = sx.shrink_history(prop, ops, idx, sig)
+                # (a failure that does not need the worker threads / the grader's thread is replayed without them)
+                small, small_obs = sx.shrink_history(prop, strip_modes(ops, stripped), idx, sig)
+                if small_obs is None and stripped:
+                    small = ops[:idx + 1]
                 failures.append(Failure(sig, what, {"ops": small, "real": small_obs if small_obs else obs[:idx + 1]}))
             for idx, op in enumerate(ops):
                 if op.get("size"):
                     sizes_seen.setdefault((failed_at.get(idx), op["size"]["dim"]), set()).add(op["size"]["n"])
 
-        def untag_threaded(found, ops):
-            """`threaded` in a signature means: ONLY when threaded.  If the same execution fails the same way
-            without a thread, it is reported under the signature without the tag."""
+        def strip_modes(ops, fields):
+            if not fields:
+                return ops
             import copy
             plain = copy.deepcopy(ops)
             for op in sx.walk_ops(plain):
-                op.pop("threaded", None)
-            try:
-                plain_found = {(i, json.dumps(sig, sort_keys=True)) for i, sig, _ in
-                               sx.failures_in(prop, plain, sx.run_history(plain))}
-            except Exception:
-                return found
+                for f in fields:
+                    op.pop(f, None)
+            return plain
+
+        def untag(found, ops):
+            """`threaded` / `grader-thread` in a signature mean: ONLY when executed that way.  The history is run
+            again with the worker threads and / or the grader's thread taken away (both, then each alone); a failure
+            that shows the same way in such a twin is reported under the signature without the tag(s) the twin lacks."""
+            twins = {}
+
+            def twin_found(fields):
+                if fields not in twins:
+                    plain = strip_modes(ops, fields)
+                    try:
+                        twins[fields] = {(i, json.dumps(sig, sort_keys=True)) for i, sig, _ in
+                                         sx.failures_in(prop, plain, sx.run_history(plain))}
+                    except Exception:
+                        twins[fields] = set()
+                return twins[fields]
             out = []
-            for idx, sig, what in found:
-                bare = {k: v for k, v in sig.items() if k != "threaded"}
-                if "threaded" in sig and (idx, json.dumps(bare, sort_keys=True)) in plain_found:
-                    out.append((idx, bare, what))
-                else:
-                    out.append((idx, sig, what))
+            for idx, sig, what, _ in found:
+                present = tuple(f for f in ("on", "threaded") if MODE_FIELD_TAG[f] in sig)
+                choice, gone = sig, ()
+                for fields in ([present] if len(present) < 2 else [present, ("on",), ("threaded",)]):
+                    if not fields:
+                        break
+                    bare = {k: v for k, v in sig.items() if k not in {MODE_FIELD_TAG[f] for f in fields}}
+                    if (idx, json.dumps(bare, sort_keys=True)) in twin_found(fields):
+                        choice, gone = bare, fields
+                        break
+                out.append((idx, choice, what, gone))
             return out
 
         def add_size_ranges():
@@ -244,13 +289,14 @@ def make(prop, theorems, *, model_notes=None, refuted_full=None, driver_exe=None
         if broken or not getattr(corr, "runs", None):
             sx.warm_up()
             extra += sx.coverage_histories(rng)
-        snippets = sx.failing_snippets(rng) + dm.odd_exception_snippets()
+        snippets = sx.failing_snippets(rng) + dm.odd_exception_snippets() + sp.special_snippets()
         sized = [s for s in sz.sized_snippets(rng) + sz.rendering_snippets() if not s.get("slow")]
         n = 40 if tier == "quick" else 1500
         if broken:
             n *= 3
             extra += sz.sized_histories(rng, "thorough" if tier != "quick" else "quick")
             extra += dm.nested_histories(rng, tier) + dm.odd_exception_histories(rng, tier)
+            extra += sp.special_histories(rng, tier) + sp.grader_thread_histories(rng, tier)
         for _ in range(n):
             extra.append(random_history(rng, snippets, sized, inject_rate=0.1))
         for ops in extra:
@@ -261,6 +307,8 @@ def make(prop, theorems, *, model_notes=None, refuted_full=None, driver_exe=None
         info["distinct_nontrivial"] = len(nt)
         info["oracle_clauses_skipped"] = dict(sx.SKIPPED)
         info["size_limits_read_from_the_tree"] = sz.describe_limits()
+        info["special_exception_classes"] = sp.describe_special()
+        info["grader_threads"] = list(sp.GRADER_THREADS) + (["GATED inputs on"] if sp.gated_enabled() else [])
         return failures, info
 
     def replay(payload):
